@@ -24,12 +24,50 @@ pub fn op_repl(job: &Value) -> Value {
     let runner = Rc::new(DefaultProgramRunner::new());
     let opts = Rc::new(DefaultCompilerOpts::new("*program*"));
     let mut repl = Repl::new(opts, runner);
+    // "split": every form is typed over three lines, the line breaks standing where single spaces stood between two
+    // tokens (outside strings), so that the break is the only thing separating them
+    let split = job.get("split").and_then(|b| b.as_bool()).unwrap_or(false);
+    let fragments = |text: &str| -> Vec<String> {
+        if !split {
+            return vec![text.to_string()];
+        }
+        let b = text.as_bytes();
+        let mut in_str = false;
+        let mut cands = vec![];
+        for i in 1..b.len().saturating_sub(1) {
+            if b[i] == b'"' {
+                in_str = !in_str;
+            }
+            if !in_str && b[i] == b' ' && b[i - 1] != b' ' && b[i + 1] != b' ' && b[i - 1] != b'(' && b[i + 1] != b')' {
+                cands.push(i);
+            }
+        }
+        if cands.len() < 2 {
+            return vec![text.to_string()];
+        }
+        let (i, j) = (cands[cands.len() / 3], cands[(2 * cands.len()) / 3]);
+        if i >= j {
+            return vec![text[..i].to_string(), text[i + 1..].to_string()];
+        }
+        vec![text[..i].to_string(), text[i + 1..j].to_string(), text[j + 1..].to_string()]
+    };
     for d in job["defs"].as_array().unwrap() {
-        if let Err(e) = repl.process_line(&mut allocator, d.as_str().unwrap().to_string()) {
-            return json!({"def_error": format!("{}: {}", e.0, e.1), "def": d});
+        for frag in fragments(d.as_str().unwrap()) {
+            if let Err(e) = repl.process_line(&mut allocator, frag) {
+                return json!({"def_error": format!("{}: {}", e.0, e.1), "def": d});
+            }
         }
     }
-    match repl.process_line(&mut allocator, job["expr"].as_str().unwrap().to_string()) {
+    let mut frags = fragments(job["expr"].as_str().unwrap());
+    let last = frags.pop().unwrap();
+    for frag in frags {
+        match repl.process_line(&mut allocator, frag) {
+            Ok(None) => {}
+            Ok(Some(_)) => return json!({"error": "a fragment of the expression was answered as if it were complete"}),
+            Err(e) => return json!({"error": format!("{}: {}", e.0, e.1)}),
+        }
+    }
+    match repl.process_line(&mut allocator, last) {
         Ok(Some(b)) => match b.borrow() {
             BodyForm::Quoted(v) => json!({"const": from_rich(v).to_json()}),
             other => json!({"residual": other.to_sexp().to_string()}),
@@ -141,7 +179,8 @@ pub fn drive(args: &HashMap<String, String>) {
         cs.push(Case { expr: pc.body.render(), defs, envs: vec![V::nil()], open: false, p: pc });
     }
     let cfg = PoolCfg { batch: 1, timeout: Duration::from_secs(20), ..PoolCfg::default() };
-    let rjobs: Vec<Value> = cs.iter().map(|c| json!({"op": "repl", "defs": c.defs, "expr": c.expr, "events": true})).collect();
+    // every third session is typed over several lines (the accumulated text must be what the compiler is given)
+    let rjobs: Vec<Value> = cs.iter().enumerate().map(|(i, c)| json!({"op": "repl", "defs": c.defs, "expr": c.expr, "events": true, "split": i % 3 == 1})).collect();
     let rres = run_jobs(rjobs, &cfg);
     let mut cjobs = vec![];
     for (c, r) in cs.iter().zip(rres.iter()) {
@@ -188,7 +227,7 @@ pub fn drive(args: &HashMap<String, String>) {
         let ast = if in_model { ast } else { Program { args: Pat::Nil, helpers: vec![], body: Expr::Lit(V::nil()) }.to_json() };
         writeln!(tf, "{}", json!({"ast": ast, "in_model": in_model, "open": c.open, "kind": kind, "value": r.get("const").cloned().unwrap_or(json!(["a", []])),
             "envs": c.envs.iter().map(|e| e.to_json()).collect::<Vec<_>>(), "compiled": runs(compiled), "residual_compiled": runs(resid)})).unwrap();
-        writeln!(cf, "{}", json!({"defs": c.defs, "expr": c.expr, "args": c.p.args.render(), "repl": r, "compiled": compiled, "residual_compiled": resid,
+        writeln!(cf, "{}", json!({"defs": c.defs, "expr": c.expr, "split": i % 3 == 1, "args": c.p.args.render(), "repl": r, "compiled": compiled, "residual_compiled": resid,
             "envs": c.envs.iter().map(|e| e.show()).collect::<Vec<_>>()})).unwrap();
         if rep.samples.len() < 4 && kind != "error" {
             rep.sample(json!({"defs": c.defs, "expr": c.expr, "repl": r, "compiled": compiled}));
